@@ -286,6 +286,16 @@ func (g *generator) genBlock() *Step {
 	if r.Chance(0.15) {
 		st.Shuffle = int64(r.Range(1, 7))
 	}
+	pCrash := 0.0
+	switch g.s.prop {
+	case "C07":
+		pCrash = 0.5
+	case "C04", "C12", "C13":
+		pCrash = 0.05
+	}
+	if pCrash > 0 && r.Chance(pCrash) {
+		st.CrashAt = r.Range(1, 60)
+	}
 	if g.prof.midBlockInterf > 0 && r.Chance(g.prof.midBlockInterf) {
 		phases := []string{"pre", "begin", "tx0", "tx1", "end", "commit"}
 		for k := r.Range(1, 3); k > 0; k-- {
